@@ -63,6 +63,39 @@ def kernel_ro(payload):
     return res
 
 
+def step_ro(payload):
+    """worker (JIT): the labelling step and the likelihood table on caller-built model states and data in the given forms"""
+    from fast_ticc.containers import arguments as _arg, model_state as _ms
+    from fast_ticc import likelihood as _lk, cluster_label_assignment as _cla
+    res = []
+    for (data, thetas, means, W, order, readonly) in payload:
+        K = len(thetas)
+        ua = _arg.UserArguments(sparsity_weight=0.11, iteration_limit=2, label_switching_cost=2.0, min_cluster_size=1, min_meaningful_covariance=0,
+                                num_clusters=K, num_processors=1, biased_covariance=False, window_size=W)
+        data = np.array(data, order=order, copy=True)
+        data.setflags(write=not readonly)
+        st = _ms.ModelState.empty_model(ua, data)
+        owned = [data]
+        for k, cl in enumerate(st.clusters):
+            th = np.array(thetas[k], order=order, copy=True)
+            th.setflags(write=not readonly)
+            mu = np.array(means[k], copy=True)
+            mu.setflags(write=not readonly)
+            cl.train_inverse = th
+            cl.stacked_data_mean = mu
+            owned += [th, mu]
+        before = [o.tobytes() for o in owned]
+        errs = []
+        for name, fn in (("all_points_all_clusters_log_likelihood", lambda: _lk.all_points_all_clusters_log_likelihood(st, data)),
+                         ("predict_cluster_labels", lambda: _cla.predict_cluster_labels(st, data))):
+            try:
+                fn()
+            except Exception as e:  # noqa
+                errs.append("%s: %s: %s" % (name, type(e).__name__, str(e)[:160]))
+        res.append(([o.tobytes() for o in owned] == before, errs))
+    return res
+
+
 def run(ctx):
     import io
     import contextlib
@@ -194,6 +227,24 @@ def run(ctx):
                 if err:
                     ctx.violation("monitor", "JIT-compiled labelling kernel fails on a %s %d x %d cost table: %s" % (
                         "read-only" if item[2] else "writable", shape[0], shape[1], err), desc)
+        # the labelling step and the likelihood table under JIT on caller-built states: writable and read-only, both memory orders
+        pl = []
+        for j in range(4):
+            n_ = 2; W_ = 1 + j % 2
+            A_ = rng.normal(size=(3, n_ * W_, n_ * W_))
+            pl.append((rng.normal(size=(12, n_ * W_)), [a @ a.T + np.eye(n_ * W_) for a in A_[:2]], [rng.normal(size=n_ * W_) for _ in range(2)],
+                       W_, "CF"[j // 2], bool(j % 2)))
+        r2 = core.run_worker(ctx, "vcheck.props.c19:step_ro", pl, mode="jit", tag="stepro")
+        if not r2["ok"]:
+            ctx.violation("tie", "JIT worker failed: %s" % r2["error"][:300], {"correspondence": "harness:C19.jit-step"}, no_input=True)
+        else:
+            for (same, errs), item in zip(r2["result"], pl):
+                ctx.count("jit-labelling-step")
+                desc = {"call": "labelling step / likelihood table under JIT", "data_shape": list(item[0].shape), "order": item[4], "read_only": item[5]}
+                if not same:
+                    ctx.violation("monitor", "the labelling step under JIT modified a caller-built array (%s order, %s)" % (item[4], "read-only" if item[5] else "writable"), desc)
+                for e in errs:
+                    ctx.violation("monitor", "under JIT, with %s %s-ordered arrays: %s" % ("read-only" if item[5] else "writable", item[4], e), desc)
     ctx.coverage["distribution"] = hist
     core.anchored_check(ctx, ANCHORS, cov, ignore=("raise TypeError", "not_a_numpy_array", "not_a_list_of_numpy_arrays", "LOGGER.", "new_rho", "scale = args.rho", "u = scale * u", "filtered = array"))
     ctx.sample({"site": list(key(sites[0]))})
